@@ -164,9 +164,8 @@ func buildState(t *keytab, spec StateSpec) (*stateRT, error) {
 type candidate struct {
 	spec  StateSpec
 	order int    // enumeration order
-	sig   string // fine signature: configuration + visible keys + normalised LSM shape + unflushed writes
-	class string // coarse shape class used to spread the capped selection
-	rich  int
+	sig   string // fine signature: visible keys + normalised LSM shape + unflushed writes
+	class string // shape class (conjunction of the state's features) used to spread the capped selection
 }
 
 func histKinds(h []hx.Op) (del, rdel, merge, ingest bool) {
@@ -186,17 +185,17 @@ func histKinds(h []hx.Op) (del, rdel, merge, ingest bool) {
 }
 
 // describe executes a history and returns the signature/class of the state after every step >= from.
-func describe(cfg hx.Config, hist []hx.Op, from int) (sigs, classes []string, rich []int, err error) {
+func describe(cfg hx.Config, hist []hx.Op, from int) (sigs, classes []string, err error) {
 	x, err := hx.Open(vfs.NewMem(), "db", cfg)
 	if err != nil {
-		return nil, nil, nil, err
+		return nil, nil, err
 	}
 	defer x.D.Close()
 	m := hx.NewModel("a", "c", "z")
 	var mem []string
 	for i, op := range hist {
 		if err := x.Apply(i, op); err != nil {
-			return nil, nil, nil, fmt.Errorf("step %d %s: %v", i, op, err)
+			return nil, nil, fmt.Errorf("step %d %s: %v", i, op, err)
 		}
 		x.D.VerifWaitIdle()
 		m.Apply(op, fmt.Sprintf("v%d", i))
@@ -254,18 +253,16 @@ func describe(cfg hx.Config, hist []hx.Op, from int) (sigs, classes []string, ri
 		}
 		sort.Strings(feats)
 		class := strings.Join(feats, ",")
-		r := len(feats)
 		sigs = append(sigs, sig)
 		classes = append(classes, class)
-		rich = append(rich, r)
 	}
-	return sigs, classes, rich, nil
+	return sigs, classes, nil
 }
 
 // discoverStates enumerates every write history (bases x alphabet^depth, executed under the first
 // configuration), keeps the first history (enumeration order) of each distinct signature, groups
-// them by shape class and picks up to limit of them round-robin over the classes (richest classes
-// first), so that the capped selection is deterministic and spread over the shape classes.
+// them by shape class and picks up to limit classes by a greedy pairwise cover of their features, so
+// that the capped selection is deterministic and spread over the shape classes.
 func discoverStates(c *vlib.Ctx, limit int) (picked []StateSpec, nHist, nDistinct, nClasses int) {
 	type job struct {
 		b    base
@@ -287,7 +284,6 @@ func discoverStates(c *vlib.Ctx, limit int) (picked []StateSpec, nHist, nDistinc
 	}
 	type res struct {
 		sigs, classes []string
-		rich          []int
 		err           error
 	}
 	results := make([]res, len(jobs))
@@ -299,7 +295,7 @@ func discoverStates(c *vlib.Ctx, limit int) (picked []StateSpec, nHist, nDistinc
 			from = len(j.b.ops) // the base itself is a candidate too
 		}
 		var r res
-		r.sigs, r.classes, r.rich, r.err = describe(cfg, j.hist, from)
+		r.sigs, r.classes, r.err = describe(cfg, j.hist, from)
 		results[i] = r
 	})
 	seen := map[string]bool{}
@@ -327,7 +323,7 @@ func discoverStates(c *vlib.Ctx, limit int) (picked []StateSpec, nHist, nDistinc
 			}
 			byClass[cl] = append(byClass[cl], candidate{
 				spec:  StateSpec{Name: fmt.Sprintf("%s/%d", j.b.name, order), Hist: h},
-				order: order, sig: r.sigs[s], class: cl, rich: r.rich[s]})
+				order: order, sig: r.sigs[s], class: cl})
 		}
 	}
 	// One candidate per class (its first history in enumeration order). Greedy pairwise coverage:
